@@ -78,6 +78,18 @@ def cases(ctx):
         add(cfg("CN=ext%d" % k, extensions=ext_all[:k]), "extensions")
     for size in [127, 128, 255, 256, 700]:
         add(cfg("CN=big", extensions=[{"custom": {"oid": "1.2.3.9", "raw": raw(size, size)}}]), "extensions")
+    # long values inside structured extensions (hand-built wrappers must switch to the 0x81 / 0x82 length forms)
+    for size in [120, 127, 128, 250, 253, 256, 300, 700]:
+        long = "http://" + "h" * (size - 7)
+        add(cfg("CN=long %d" % size, extensions=[
+            {"admission": {"content": {"admissionAuthority": {"type": "url", "name": long},
+                                       "admissions": [{"admissionAuthority": {"type": "url", "name": long}, "namingAuthority": {"url": long, "text": "t" * size},
+                                                       "professionInfos": [{"namingAuthority": {"text": "n" * size}, "professionItems": ["i" * size], "registrationNumber": "7" * size,
+                                                                            "addProfessionInfo": raw(size, size)}]}]}}},
+            {"subjectAlternativeName": {"content": [{"type": "dns", "name": "d" * size}, {"type": "mail", "name": "m" * (size - 10) + "@b.example"}]}},
+            {"certificatePolicies": {"content": [{"oid": "1.2.3.4", "qualifiers": [{"cps": long}, {"userNotice": {"organization": "o" * min(size, 200), "numbers": [1], "text": "e" * min(size, 200)}}]}]}},
+            {"authorityInformationAccess": {"content": [{"ocsp": long}]}},
+            {"authorityKeyIdentifier": {"content": {"id": raw(size, size + 1)}}}]), "longValues")
     if not ctx.quick:
         for size in [65535, 65536, 70000]:
             add(cfg("CN=huge", extensions=[{"custom": {"oid": "1.2.3.9", "raw": raw(size, size)}}]), "extensions")
